@@ -3,6 +3,7 @@ package main
 // Harness commands registered on the Evaler (namespace vw:) and the runner that evaluates ONE form
 // and projects what happened to the abstract observation of spec/Ports/Ports.tla.
 //
+//	vw:up            the producer in `vw:up | form`: writes the bytes UV and exits
 //	vw:do op...      the body of a form: runs the given port operations in order from INSIDE the form,
 //	                 on the frame the redirections produced:
 //	                   b:FD:N   write the byte N to port FD   (real fm.ByteOutput().WriteString)
@@ -114,7 +115,10 @@ func NewH(dir string) *H {
 			h.rvOut = "block"
 		}
 	})
-	ns := eval.BuildNsNamed("vw").AddGoFn("do", h.do).Ns()
+	ns := eval.BuildNsNamed("vw").AddGoFn("do", h.do).AddGoFn("up", func(fm *eval.Frame) error {
+		_, err := fm.ByteOutput().WriteString("UV") // the producer of a piped form
+		return err
+	}).Ns()
 	h.ev.ExtendBuiltin(eval.BuildNs().AddNs("vw", ns))
 	return h
 }
